@@ -73,10 +73,17 @@ def gen_set_op(r, item, copy_on=False, ops=OPS):
     elif k == "copy":
         op["how"] = r.choice(["copy", "deepcopy", "pickle"])
         op["proto"] = r.choice([2, 3, 4, 5])
+    if k in ("ior", "iand", "isub", "ixor"):
+        # the class of the operand: every kind of set is as good as a set
+        op["oc"] = r.choice(["set", "set", "frozenset", "frozenset", "traitset", "subclass"])
     if ("vs" in op or "args" in op) and r.random() < 0.3:
         # any iterable is as good as a list (a generator can be walked only once)
         op["as"] = r.choice(["gen", "gen", "tuple", "iter", "map"])
     return op, nval
+
+
+class SetSubclass(set):
+    pass
 
 
 def sut_set_apply(ts, op):
@@ -101,14 +108,25 @@ def sut_set_apply(ts, op):
         return sut(ts.clear)
     if k == "update":
         return sut(ts.update, *[mk_arg(a, ai) for ai, a in enumerate(op["args"])])
+    def operand(default):
+        oc = op.get("oc", default)
+        vals = mk_arg(op["vs"])
+        if oc == "frozenset":
+            return frozenset(vals)
+        if oc == "traitset":
+            from traits.trait_set_object import TraitSet
+            return TraitSet(vals)
+        if oc == "subclass":
+            return SetSubclass(vals)
+        return set(vals)
     if k == "ior":
-        return sut(operator.ior, ts, set(mk_arg(op["vs"])))
+        return sut(operator.ior, ts, operand("set"))
     if k == "iand":
-        return sut(operator.iand, ts, set(mk_arg(op["vs"])))
+        return sut(operator.iand, ts, operand("set"))
     if k == "isub":
-        return sut(operator.isub, ts, frozenset(mk_arg(op["vs"])))
+        return sut(operator.isub, ts, operand("frozenset"))
     if k == "ixor":
-        return sut(operator.ixor, ts, set(mk_arg(op["vs"])))
+        return sut(operator.ixor, ts, operand("set"))
     if k == "symmetric_difference_update":
         return sut(ts.symmetric_difference_update, mk_arg(op["vs"]))
     if k == "difference_update":
